@@ -18,7 +18,7 @@ def free_port():
 
 
 class Server:
-    def __init__(self, tag, password=None, appendonly=False, extra=(), keep_dir=None):
+    def __init__(self, tag, password=None, appendonly=False, extra=(), keep_dir=None, preexec_fn=None, quiet=False):
         self.tag = tag
         self.port = free_port()
         self.dir = keep_dir or os.path.join(CACHE, "run", "%s-%d-%d" % (tag, os.getpid(), self.port))
@@ -31,8 +31,9 @@ class Server:
             argv += ["--appendonly", "yes"]
         argv += list(extra)
         self.argv = argv
-        self.log = open(os.path.join(self.dir, "server.log"), "ab")
-        self.p = subprocess.Popen(argv, cwd=self.dir, stdout=self.log, stderr=self.log, env=ENV)
+        # quiet: the server's own output goes to /dev/null (a character device is not subject to RLIMIT_FSIZE)
+        self.log = open(os.devnull if quiet else os.path.join(self.dir, "server.log"), "ab")
+        self.p = subprocess.Popen(argv, cwd=self.dir, stdout=self.log, stderr=self.log, env=ENV, preexec_fn=preexec_fn)
         self.wait_ready()
 
     def wait_ready(self):
